@@ -250,6 +250,7 @@ class Func:
         self.self_obj = self_obj
         self.fi = fi
         self.cls = cls
+        self.defaults = None      # {parameter name: value} evaluated when the def / lambda was executed (None: not yet / a method)
 
     def __repr__(self):
         n = getattr(self.node, "name", "<lambda>")
@@ -388,6 +389,7 @@ class Interp:
         self.host_reads = set()        # (host class name, attribute) read from host objects (ast nodes given as data)
         self.max_unknown_len = 2       # an unknown collection is iterated with 0..max_unknown_len unknown elements
         self._modenv = {}
+        self.bypass_stub_once = None
 
     # ------------------------------------------------------------ helpers
     def fresh(self, hint="v"):
@@ -605,6 +607,8 @@ class Interp:
     def call(self, f, args, kwargs):
         if isinstance(f, Func):
             return self._call_func(f, args, kwargs)
+        if "**" in kwargs:
+            kwargs = {k: v for k, v in kwargs.items() if k != "**"}     # an unknown **mapping only travels into interpreted functions
         if isinstance(f, ClassRef):
             return self.instantiate(f.ci, args, kwargs)
         if isinstance(f, BoundBuiltin):
@@ -636,7 +640,9 @@ class Interp:
         if qual in self.trace_calls:
             self.event("call", qual)
         stub = self.stubs.get(qual)
-        if stub is not None:
+        if stub is not None and self.bypass_stub_once == qual:
+            self.bypass_stub_once = None       # a stub delegating to the real function (bounded recursion models)
+        elif stub is not None:
             return stub(self, args, kwargs)
         self.depth += 1
         if self.depth > self.MAX_DEPTH:
@@ -644,7 +650,7 @@ class Interp:
             raise Imprecise(f"call depth exceeded at {qual}")
         try:
             env = Env(f.env)
-            self._bind(node.args, args, kwargs, env, f.module, qual)
+            self._bind(node.args, args, kwargs, env, f.module, qual, f.defaults)
             if isinstance(node, ast.Lambda):
                 return self.eval(node.body, env, f.module)
             if _is_generator(node) and any((dotted(d) or "").split(".")[-1] == "contextmanager" for d in getattr(node, "decorator_list", [])):
@@ -688,7 +694,7 @@ class Interp:
             acc(x) if callable(acc) else acc.append(x)
         return getattr(sub, "retval", None)
 
-    def _bind(self, a: ast.arguments, args, kwargs, env, module, qual):
+    def _bind(self, a: ast.arguments, args, kwargs, env, module, qual, evaluated=None):
         params = a.posonlyargs + a.args
         args = list(args)
         kwargs = dict(kwargs)
@@ -700,7 +706,9 @@ class Interp:
                 env.vars[p_.arg] = kwargs.pop(p_.arg)
             else:
                 di = i - (len(params) - n_def)
-                if di >= 0:
+                if di >= 0 and evaluated is not None and p_.arg in evaluated:
+                    env.vars[p_.arg] = evaluated[p_.arg]
+                elif di >= 0:
                     env.vars[p_.arg] = self.eval(a.defaults[di], Env(self.module_env(module)), module)
                 else:
                     raise PyRaise(ExcVal("TypeError", (f"{qual}: missing argument {p_.arg}",)))
@@ -712,12 +720,15 @@ class Interp:
         for p_, d in zip(a.kwonlyargs, a.kw_defaults):
             if p_.arg in kwargs:
                 env.vars[p_.arg] = kwargs.pop(p_.arg)
+            elif d is not None and evaluated is not None and p_.arg in evaluated:
+                env.vars[p_.arg] = evaluated[p_.arg]
             elif d is not None:
                 env.vars[p_.arg] = self.eval(d, Env(self.module_env(module)), module)
             else:
                 raise PyRaise(ExcVal("TypeError", (f"{qual}: missing keyword {p_.arg}",)))
+        star = kwargs.pop("**", None)     # an unknown mapping passed as **m (see e_Call): it is the callee's **kwargs as a whole
         if a.kwarg:
-            env.vars[a.kwarg.arg] = kwargs
+            env.vars[a.kwarg.arg] = star if (star is not None and not kwargs) else kwargs
         elif kwargs:
             raise PyRaise(ExcVal("TypeError", (f"{qual}: unexpected keyword(s) {sorted(kwargs)}",)))
 
@@ -756,7 +767,20 @@ class Interp:
         pass
 
     def x_FunctionDef(self, st, env, module):
-        env.vars[st.name] = Func(st, module, env)
+        env.vars[st.name] = self._closure(st, env, module)
+
+    def _closure(self, node, env, module):
+        """a nested def / lambda: its parameter defaults are evaluated now, in the defining scope (the `x=x` idiom)"""
+        f = Func(node, module, env)
+        a = node.args
+        params = a.posonlyargs + a.args
+        f.defaults = {}
+        for p_, d in zip(params[len(params) - len(a.defaults):], a.defaults):
+            f.defaults[p_.arg] = self.eval(d, env, module)
+        for p_, d in zip(a.kwonlyargs, a.kw_defaults):
+            if d is not None:
+                f.defaults[p_.arg] = self.eval(d, env, module)
+        return f
 
     def x_Return(self, st, env, module):
         raise _Return(self.eval(st.value, env, module) if st.value is not None else None)
@@ -1256,17 +1280,18 @@ class Interp:
             else:
                 x = self.eval(v.value, env, module)
                 if isinstance(x, (str, int, float, bool)) or x is None:
-                    parts.append(format(x, self._fmt(v)) if not unknown else "")
-                elif isinstance(x, EnumVal) and False:
-                    parts.append(str(x))
+                    try:
+                        parts.append(format(x, self._fmt(v)))
+                    except Exception:      # noqa: BLE001 - a format spec that does not fit the value
+                        unknown = True
+                        parts.append("{" + _sym(x) + "}")
                 else:
                     unknown = True
+                    parts.append("{" + _sym(x) + "}")
         if unknown:
-            return self.fresh("fstr")
-        try:
-            return "".join(parts)
-        except Exception:
-            return self.fresh("fstr")
+            # the literal parts and the operands stay visible in the symbol (the text is a pure function of them)
+            return Unknown("f⟨" + "".join(parts) + "⟩")
+        return "".join(parts)
 
     def _fmt(self, fv):
         if fv.format_spec is None:
@@ -1298,6 +1323,10 @@ class Interp:
                 d = self.eval(v, env, module)
                 if isinstance(d, dict):
                     out.update(d)
+                elif isinstance(d, Unknown):
+                    # an unknown mapping spread into a display: the result is an unknown mapping built from it
+                    rest = {self.eval(k2, env, module) if k2 is not None else None: self.eval(v2, env, module) for k2, v2 in zip(e.keys, e.values) if v2 is not v}
+                    return Unknown("{**" + d.sym + "".join(f", {_sym(a)}: {_sym(b)}" for a, b in rest.items() if a is not None) + "}")
                 else:
                     raise Imprecise("** of non-dict in dict literal")
             else:
@@ -1305,7 +1334,7 @@ class Interp:
         return out
 
     def e_Lambda(self, e, env, module):
-        return Func(e, module, env)
+        return self._closure(e, env, module)
 
     def e_IfExp(self, e, env, module):
         if self.truth(self.eval(e.test, env, module), short(e.test)):
@@ -1676,6 +1705,14 @@ class Interp:
             return mem
         if isinstance(k, Unknown) and isinstance(c, dict) and k in c:
             return c[k]
+        if isinstance(c, dict) and c and (isinstance(k, Unknown) or (isinstance(k, tuple) and any(isinstance(x, Unknown) for x in k))):
+            # a truth table (keys are booleans / tuples of booleans) indexed by the outcome of tests: each unknown
+            # outcome is decided by the oracle, as it would be in the `if` the table replaces
+            keys = list(c)
+            if all(isinstance(x, bool) for x in keys) and isinstance(k, Unknown):
+                k = self.truth(k)
+            elif isinstance(k, tuple) and all(isinstance(x, tuple) and len(x) == len(k) and all(isinstance(y, bool) for y in x) for x in keys):
+                k = tuple(self.truth(x) if isinstance(x, Unknown) else x for x in k)
         if isinstance(k, Unknown):
             if isinstance(c, (dict, list, tuple)) and len(c) == 0:
                 raise PyRaise(ExcVal("KeyError" if isinstance(c, dict) else "IndexError", (k,)))
@@ -1772,7 +1809,7 @@ class Interp:
                 if isinstance(d, dict):
                     kwargs.update(d)
                 elif isinstance(d, Unknown):
-                    pass
+                    kwargs["**"] = d
                 else:
                     raise Imprecise("** of non-dict")
             else:
@@ -2419,10 +2456,11 @@ class Interp:
                 if name == "join":
                     items = self.iterate(args[0])
                     if any(not isinstance(x, str) for x in items):
-                        return self.fresh("join")
+                        # the text of the parts stays visible in the symbol (a pure function of them)
+                        return Unknown(f"{recv!r}.join⟨{' ‖ '.join(x if isinstance(x, str) else _sym(x) for x in items)}⟩")
                     return recv.join(items)
                 if name == "format":
-                    return self.fresh("format")
+                    return Unknown(f"{recv!r}.format({', '.join(_sym(a) for a in list(args) + list(kwargs.values()))})")
                 return getattr(recv, name)(*args, **kwargs)
             except Exception as ex:
                 raise PyRaise(ExcVal(type(ex).__name__, (str(ex),)))
@@ -2580,7 +2618,7 @@ def _sym(a):
     if isinstance(a, Unknown):
         return ("¬" if a.neg else "") + a.sym
     r = repr(a)
-    return r if len(r) <= 40 else r[:37] + "…"
+    return r if (len(r) <= 40 or "⟦" in r) else r[:37] + "…"      # marked symbols (taint analyses) are never cut
 
 
 def _opaque(v):
